@@ -348,7 +348,7 @@ pub fn generate(rng: &mut Rng, tier: Tier) -> Scenario {
             ops.push(Op::Feed { n: 0, x, f });
         }
         if rng.chance(0.05) {
-            ops.push(Op::Fork { src: 0, dst: 0 });
+            ops.push(Op::Fork { src: 0, dst: 0, into: false });
         }
         if rng.chance(0.3) {
             ops.push(Op::RoundTrip { n: 0, times: rng.range(1, 5) as u32, json: rng.chance(0.3) });
